@@ -15,6 +15,8 @@ pub enum El {
     U,
     A(Vec<El>),
     T(Vec<El>),
+    /// a struct; fields are written in the order given, equality is by field name
+    R(Vec<(&'static str, El)>),
 }
 
 impl El {
@@ -27,6 +29,7 @@ impl El {
             (El::B(a), El::B(b)) => a == b,
             (El::U, El::U) => true,
             (El::A(a), El::A(b)) | (El::T(a), El::T(b)) => a.len() == b.len() && a.iter().zip(b).all(|(x, y)| x.eq(y)),
+            (El::R(a), El::R(b)) => a.len() == b.len() && a.iter().all(|(n, x)| b.iter().any(|(m, y)| n == m && x.eq(y))),
             _ => false,
         }
     }
@@ -34,6 +37,7 @@ impl El {
         match self {
             El::F(f) => f.is_nan(),
             El::A(v) | El::T(v) => v.iter().any(El::has_nan),
+            El::R(v) => v.iter().any(|(_, e)| e.has_nan()),
             _ => false,
         }
     }
@@ -53,6 +57,7 @@ impl El {
             El::U => "()".into(),
             El::A(v) => format!("[{}]", v.iter().map(|e| e.text(hidden)).collect::<Vec<_>>().join(", ")),
             El::T(v) => format!("({})", v.iter().map(|e| e.text(hidden)).collect::<Vec<_>>().join(", ")),
+            El::R(v) => format!("struct{{{}}}", v.iter().map(|(n, e)| format!("{n} := {}", e.text(hidden))).collect::<Vec<_>>().join(", ")),
         }
     }
     fn value(&self) -> Variable {
@@ -64,6 +69,11 @@ impl El {
             El::U => Variable::Void,
             El::A(v) => Variable::from(v.iter().map(El::value).collect::<Vec<_>>()),
             El::T(v) => Variable::Tuple(v.iter().map(El::value).collect()),
+            // (a struct value is built by the interpreter from its literal; the public API has no other constructor)
+            El::R(_) => match real::parse_exec(&self.text(false), false) {
+                Outcome::Value(v) => v,
+                _ => Variable::Void,
+            },
         }
     }
 }
@@ -101,6 +111,17 @@ pub fn contents() -> Vec<Vec<El>> {
         vec![T(vec![I(1), S("b")])],
         vec![I(1), F(1.0)],
         vec![F(1.0), I(1)],
+        // structs (separately built, fields written in different orders, nested, inside tuples)
+        vec![R(vec![("x", I(1)), ("y", I(2))])],
+        vec![R(vec![("y", I(2)), ("x", I(1))])],
+        vec![R(vec![("x", I(1)), ("y", I(3))])],
+        vec![R(vec![("x", I(1))])],
+        vec![R(vec![("a", I(1)), ("b", S("s")), ("c", F(2.5)), ("d", B(true)), ("e", U)]), I(7)],
+        vec![R(vec![("e", U), ("d", B(true)), ("c", F(2.5)), ("b", S("s")), ("a", I(1))]), I(7)],
+        vec![R(vec![("a", I(1)), ("b", S("s")), ("c", F(2.5)), ("d", B(false)), ("e", U)]), I(7)],
+        vec![T(vec![R(vec![("x", I(1)), ("y", I(2))]), I(0)]), R(vec![("p", A(vec![I(1)])), ("q", R(vec![("x", I(1)), ("y", I(2))]))])],
+        vec![T(vec![R(vec![("y", I(2)), ("x", I(1))]), I(0)]), R(vec![("q", R(vec![("y", I(2)), ("x", I(1))])), ("p", A(vec![I(1)]))])],
+        vec![A(vec![R(vec![("x", I(1)), ("y", I(2))])])],
     ]
 }
 
@@ -322,6 +343,86 @@ impl Ctx<'_> {
         }
     }
 
+
+    /// every ordered pair of a pool of scalars (signed zeros, NaN, infinities, look-alikes of different kinds) through
+    /// `==`, `!=` and value arms - constant and run-time operands, and a `match` whose leading arms are all scalar
+    /// constants (an implementation may look such arms up in a table: the lookup must still be IEEE equality)
+    fn scalar_matrix(&mut self, cfg: &Cfg) {
+        use El::*;
+        let pool: Vec<El> = vec![
+            I(0), I(1), I(-1), I(i64::MAX), F(0.0), F(-0.0), F(1.0), F(1.5), F(f64::NAN), F(f64::INFINITY), F(f64::NEG_INFINITY), F(5e-324), F(-1.0),
+            B(true), B(false), S(""), S("a"), S("0"), S("1"), U,
+        ];
+        let mut cell = 0u64;
+        for a in &pool {
+            for b in &pool {
+                cell += 1;
+                if !cfg.owns(cell) {
+                    continue;
+                }
+                let want = a.eq(b);
+                let (ta, tb) = (a.text(false), b.text(false));
+                let progs = [
+                    ("constant", format!("m := match {ta} {{ {tb} => true, => false, }}; ({ta} == {tb}, {ta} != {tb}, m)")),
+                    ("run-time", format!("f := (x: any, y: any) -> (bool, bool, bool) {{ m := match x {{ y => true, => false, }}; return (x == y, x != y, m) }}; f({ta}, {tb})")),
+                    ("constant-candidate", format!("f := (x: any) -> (bool, bool, bool) {{ m := match x {{ {tb} => true, => false, }}; return (x == {tb}, x != {tb}, m) }}; f({ta})")),
+                    ("constant-scrutinee", format!("f := (y: any) -> (bool, bool, bool) {{ m := match {ta} {{ y => true, => false, }}; return ({ta} == y, {ta} != y, m) }}; f({tb})")),
+                ];
+                for (form, src) in progs {
+                    self.rep.evaluations += 1;
+                    self.rep.count("scalar-matrix-cases");
+                    self.rep.distinct_case(&src);
+                    match eval_bools(&src) {
+                        Ok(v) if v.len() == 3 => {
+                            for (op, got, w) in [("==", v[0], want), ("!=", v[1], !want), ("match-value-arm", v[2], want)] {
+                                if got != w {
+                                    self.rep.violation(&format!("c19:scalar-matrix:{op}:{form}:expected-{w}"), &format!("{op} gave {got}, expected {w} for {ta} vs {tb} :: {src}"), "c19", &src);
+                                }
+                            }
+                        }
+                        Ok(v) => self.rep.violation("c19:eval:arity", &format!("{src}: {v:?}"), "c19", &src),
+                        Err(why) => self.rep.violation(&format!("c19:scalar-matrix:eval:{form}:{}", truncate(&why, 50)), &format!("{src}: {why}"), "c19", &src),
+                    }
+                }
+            }
+        }
+        // a match whose leading arms are all scalar constants, in several orders: the arm taken is the first one whose
+        // candidate equals the value (documented equality), else the default
+        for rot in 0..pool.len() {
+            cell += 1;
+            if !cfg.owns(cell) {
+                continue;
+            }
+            let order: Vec<&El> = (0..pool.len()).map(|i| &pool[(i * 7 + rot) % pool.len()]).collect();
+            let arms = order.iter().enumerate().map(|(i, c)| format!("{} => {}, ", c.text(false), i + 1)).collect::<String>();
+            let pairs = order.chunks(2).enumerate().map(|(i, c)| format!("{} => {}, ", c.iter().map(|e| e.text(false)).collect::<Vec<_>>().join(", "), i + 1)).collect::<String>();
+            for x in &pool {
+                let first = order.iter().position(|c| x.eq(c)).map(|i| i as i64 + 1).unwrap_or(0);
+                let first_pair = order.iter().position(|c| x.eq(c)).map(|i| i as i64 / 2 + 1).unwrap_or(0);
+                let tx = x.text(false);
+                for (form, src, want) in [
+                    ("table:run-time", format!("f := (x: any) -> int {{ return match x {{ {arms}=> 0, }} }}; f({tx})"), first),
+                    ("table:constant", format!("match {tx} {{ {arms}=> 0, }}"), first),
+                    ("table:multi-candidate", format!("f := (x: any) -> int {{ return match x {{ {pairs}=> 0, }} }}; f({tx})"), first_pair),
+                    ("table:in-closure", format!("mk := (x: any) -> () -> int {{ return () -> int {{ return match x {{ {arms}=> 0, }} }} }}; mk({tx})()"), first),
+                ] {
+                    self.rep.evaluations += 1;
+                    self.rep.count("scalar-matrix-table-cases");
+                    match real::parse_exec(&format!("{PRELUDE}{src}"), true) {
+                        Outcome::Value(Variable::Int(i)) if i == want => {}
+                        other => {
+                            let got = match &other {
+                                Outcome::Value(v) => format!("{v:?}"),
+                                o => o.tag(),
+                            };
+                            self.rep.violation(&format!("c19:scalar-matrix:{form}"), &format!("value {tx}: arm {got} taken, the first equal candidate is in arm {want} :: {src}"), "c19", &src);
+                        }
+                    }
+                }
+            }
+        }
+    }
+
     /// the same (or a different) value seen through two differently typed parameters: the static types of the
     /// operands must not influence the answer
     fn static_views(&mut self, cfg: &Cfg) {
@@ -458,6 +559,7 @@ pub fn run(cfg: &Cfg, rep: &mut Report) {
         ctx.host_built();
     }
     ctx.static_views(cfg);
+    ctx.scalar_matrix(cfg);
     let cs = contents();
     let wraps: &[&str] = if cfg.thorough() { &["plain", "tuple", "struct", "nested"] } else { &["plain", "tuple"] };
     let mut cell = 0u64;
